@@ -168,6 +168,25 @@ def examples_strategy(draw, tier='quick', allow=lambda c: True,
                 else:
                     fields.append(''.join(chars[c] for c in shape))
             xs.append(sep.join(fields))
+    if draw(st.integers(0, 14)) == 0:
+        # plain strings plus a few in which the usual extra letters sit in
+        # a long run of mixed punctuation: with sampling, the first sample
+        # often holds none of the latter
+        xs.extend(['ab', 'cd', 'ef', 'gh', 'ij', 'kl'][:draw(
+            st.integers(3, 6))])
+        if draw(st.booleans()):
+            run = draw(st.sampled_from(['!"#$%&_-', '_!"#$%&\'',
+                                        '(-)*+,./_', '.:;<=>?-_']))
+            for w in draw(st.lists(st.sampled_from(['k', 'mn', 'p7', 'Q']),
+                                   min_size=1, max_size=2, unique=True)):
+                xs.append(w + run + draw(st.sampled_from(['z', 'y9', ''])))
+        else:
+            # two strings of one shape whose punctuation runs differ and
+            # share exactly one of the usual extra letters
+            (r1, r2) = draw(st.sampled_from([('!-#$', '-%&*'),
+                                             ('.()+', ',.;:'),
+                                             ('_<=>', '?_@^')]))
+            xs.extend(['a' + r1 + 'b', 'c' + r2 + 'd'])
     extras = draw(st.lists(st.one_of(
         T.a_text(0, 8) if allow('free') else st.just('x'),
         st.just(''),
